@@ -270,15 +270,33 @@ def handmade(rng, thorough):
 
 
 # ------------------------------------------------------------------ running
+SHORT_MODE = {}
+
+
+def short_file_mode(exe):
+    """The result for a file shorter than the marker block is -errno of a STALE errno in the code as found (the
+    model's universally quantified errno0) and -EIO with fixes/C15-short-file-result.patch (= the model with
+    errno0 := EIO).  Which of the two the tree under test does is observed once, with a 3-byte file and errno 77."""
+    if "m" not in SHORT_MODE:
+        out = C.run_cases(exe, ["raw 010203\nprint 77\n"], env=B.ENV, timeout=120)
+        rets = [l for l in out[0][0] if l.startswith("ret ")]
+        SHORT_MODE["m"] = "stale" if rets == ["ret -77"] else "eio"
+    return SHORT_MODE["m"]
+
+
 def run_prints(exe, model, files, errnos, prio_cache):
     """files -> [(impl lines, crash, model lines, model crash)]"""
+    if short_file_mode(exe) == "eio":
+        merr = [5] * len(files)
+    else:
+        merr = errnos
     texts = ["%sraw %s\nprint %d\n" % ("prios\n" if i == 0 else "", B.rle(f), e) for i, (f, e) in enumerate(zip(files, errnos))]
     impl = C.run_cases(exe, texts, env=B.ENV, timeout=900)
     if impl and not prio_cache:
         for l in impl[0][0]:
             if l.startswith("prio "):
                 prio_cache[int(l.split()[1])] = l.split()[2]
-    ms = [B.model_script(lines, B.rle(f), e) for (lines, crash), f, e in zip(impl, files, errnos)]
+    ms = [B.model_script(lines, B.rle(f), e) for (lines, crash), f, e in zip(impl, files, merr)]
     mod = C.run_cases(model, ms, timeout=900)
     return [(i[0], i[1], m[0], m[1]) for i, m in zip(impl, mod)]
 
@@ -430,6 +448,7 @@ def run(ctx):
                  "monitors": "props/C15.py + vlib/bbfile.py: monitor_robust (returned, no ASan/UBSan/guard-page/abort report, "
                              "no new name in /dev/shm) and monitor_roundtrip (printed entries = newest k>=1 logged entries, all "
                              "fields) - both independent of the model",
+                 "short_file_result": short_file_mode(exe),
                  "presupposes_fixes": ["fixes/C15-create-from-file-validate.patch", "fixes/C15-print-record-bounds.patch",
                                        "fixes/C14-deserialize-bounds.patch (qb_vsnprintf_deserialize_n)"]}
     res.assumptions = ["the message decoder is an oracle with the contract proved for C14 (returns 1..QB_LOG_MAX_LEN, NUL at "
